@@ -94,6 +94,7 @@ type w1Actor struct {
 	FailAt     int64  `json:"fail_at,omitempty"`
 	LateWrites int64  `json:"late_writes,omitempty"`
 	BadDesc    bool   `json:"bad_desc,omitempty"` // publishes one track only: rejected by an always-available path, whose tracks are fixed
+	BadRTP     bool   `json:"bad_rtp,omitempty"`  // publishes RTP packets of a format whose decoder cannot be created: refused by every path
 }
 
 type w1Body struct {
@@ -160,6 +161,9 @@ func (w *w1World) Gen(rng *rand.Rand, property, tier string) (any, simrt.Sched) 
 		var out []string
 		for i := 0; i < n; i++ {
 			out = append(out, fmt.Sprintf("d%d", rng.Intn(5)))
+		}
+		if focus == "C39" && len(out) > 0 && rng.Intn(10) == 0 {
+			out[rng.Intn(len(out))] = fmt.Sprintf("D%d", rng.Intn(3))
 		}
 		return out
 	}
@@ -415,6 +419,9 @@ func (w *w1World) Gen(rng *rand.Rand, property, tier string) (any, simrt.Sched) 
 	for i := 0; i < npub; i++ {
 		a := w1Actor{Kind: "pub", Path: tgt(), Shape: w1Pick(rng, "2phase", "2phase", "1phase"),
 			LateWrites: int64(rng.Intn(4))}
+		if !always && i > 0 && rng.Intn(6) == 0 {
+			a.BadRTP = true
+		}
 		ns := 1 + rng.Intn(2)
 		for s := 0; s < ns; s++ {
 			a.Ops = append(a.Ops, w1Op{Op: "session", N: int64(1 + rng.Intn(12)), Ms: w1Pick[int64](rng, 0, 1, 10, 100, 500)})
@@ -633,7 +640,13 @@ func (h *w1Harness) renderYAML(v w1Version) string {
 		if len(p.Forward) > 0 {
 			sb.WriteString("    forward:\n")
 			for _, d := range p.Forward {
-				fmt.Fprintf(&sb, "    - dest: 'rtmp://sim/%s?p=$MTX_PATH'\n", d)
+				// a destination tag in capitals is written with its scheme in capitals too
+				// (URL schemes are case-insensitive; the configuration accepts them)
+				scheme := "rtmp"
+				if strings.HasPrefix(d, "D") {
+					scheme = "RTMP"
+				}
+				fmt.Fprintf(&sb, "    - dest: '%s://sim/%s?p=$MTX_PATH'\n", scheme, d)
 			}
 		}
 		isRegexp := strings.HasPrefix(p.Name, "~") || p.Name == "all_others" || p.Name == "all"
@@ -802,6 +815,14 @@ func (h *w1Harness) runPub(idx int, a *w1Actor) {
 		if a.BadDesc {
 			desc.Medias = desc.Medias[:1]
 		}
+		useRTP := false
+		if a.BadRTP {
+			// a description the SDP layer accepts and the RTP decoder refuses (H.264 packetization mode 2):
+			// the path refuses this publisher after it has looked at the tracks
+			desc = &description.Session{Medias: []*description.Media{{Type: description.MediaTypeVideo,
+				Formats: []format.Format{&format.H264{PayloadTyp: 96, SPS: w1SPS, PPS: w1PPS[0], PacketizationMode: 2}}}}}
+			useRTP = true
+		}
 		ar := h.accessReq(a, &p.id, true)
 		if skipAuth {
 			ar = defs.PathAccessRequest{Name: a.Path, Publish: true, SkipAuth: true}
@@ -812,7 +833,7 @@ func (h *w1Harness) runPub(idx int, a *w1Actor) {
 		}
 		simrt.Rec("pub.add.call", name, a.Path, sk, 0, 0)
 		res2, err := h.pm.AddPublisher(defs.PathAddPublisherReq{
-			Author: p, Desc: desc, UseRTPPackets: false, ReplaceNTP: true,
+			Author: p, Desc: desc, UseRTPPackets: useRTP, ReplaceNTP: true,
 			ConfToCompare: confToCompare, AccessRequest: ar,
 		})
 		if err != nil {
